@@ -1,59 +1,81 @@
 --------------------------- MODULE IndividualLife ---------------------------
-(* Extension beyond the listed properties (DESIGN.md section 11): the life of design objects as the rest of the framework relies on it.
-   Abstract heap of design objects o = [id, vec, costs, state, pop]; `vec` / `costs` are REFERENCES into a heap of list objects, because
-   aliasing is exactly what distinguishes the operations:
-     New(v)        fresh id (global counter), own copy of the vector, no costs, state EMPTY, population -1
-     Copy(o)       base-class copy(): fresh id, OWN copy of the vector, no costs
-     CopyNsga(o)   IndividualNSGAII.copy(): fresh id, own vector, costs list SHARED with the original (named: SharedCosts)
-     Sync(a, b)    a.sync(b): a takes b's vector and costs BY REFERENCE (named: SyncAliases), id unchanged
-     ToFrom(o)     from_dict(to_dict(o)): a new object with the SAME id, equal vector and costs in fresh lists, state as a string;
-                   the id counter still advances (the constructor runs)
-     SetVec(o, x)  in-place change of one vector cell (what swarm moves do)                                                        *)
+(* Extension beyond the listed properties (DESIGN.md section 11): the life of design objects as the rest of the framework relies on it
+   (C10 / C14 / C18 defects all turned on it: who shares which list with whom).
+   Abstract heap: objects o = [id, vec, costs, signed, origin, pop]; vec / costs / signed are REFERENCES into a heap of list objects,
+   because aliasing is exactly what distinguishes the operations:
+     New(v)        constructor: fresh id from the global counter, OWN copy of the vector, fresh empty costs / signed lists
+     Copy(i)       Individual.copy(): a constructor call on the original's vector -- nothing shared, costs not carried over
+     CopyNsga(i)   IndividualNSGAII.copy(): own vector, costs and signed lists SHARED with the original        (named: SharedCosts)
+     Sync(a, b)    a.sync(b): a takes b's vector, costs and signed lists BY REFERENCE, keeps its id            (named: SyncAliases)
+     ToFrom(i)     from_dict(to_dict(o)) without serialisation: same id, fresh vector and costs lists, signed list SHARED
+                   (to_dict copies vector and costs but passes costs_signed through)                           (named: SignedPassedThrough)
+     ToFromJson(i) the same through JSON text (what the SQLite store does): same id, nothing shared
+                   -- both run the base-class constructor, so the id counter advances although the id is overwritten; the result is a
+                      base-class object whose state is the STRING 'empty', not the enum member                  (named: StateBecomesString)
+     SetVec / SetCost / SetSigned   in-place change through one object: visible through exactly the aliases              *)
 EXTENDS Integers, Sequences, FiniteSets, TLC
 CONSTANTS MaxObjs, MaxOps, Vals
-VARIABLES objs,      \* sequence of objects [id, vec (list ref), costs (list ref), state, pop]
-          lists,     \* heap of list objects: ref -> sequence of values
-          counter, nops
+VARIABLES objs, lists, counter, nops
 vars == <<objs, lists, counter, nops>>
-NewList(content) == Len(lists) + 1
 Init == objs = <<>> /\ lists = <<>> /\ counter = 0 /\ nops = 0
 Step == nops < MaxOps /\ nops' = nops + 1
-New(v) == /\ Step /\ Len(objs) < MaxObjs
-          /\ lists' = lists \o << <<v>>, <<>> >>
-          /\ objs' = Append(objs, [id |-> counter, vec |-> Len(lists) + 1, costs |-> Len(lists) + 2, state |-> "EMPTY", pop |-> -1])
+Room == Len(objs) < MaxObjs
+Obj(id, v, c, s, origin, cls, pop, st) == [id |-> id, vec |-> v, costs |-> c, signed |-> s, origin |-> origin, cls |-> cls, pop |-> pop, state |-> st]
+Classes == {"base", "nsga"}
+\* to_dict names the enum member in lower case; a state that already is a string (an object that came from from_dict) is not
+\* recognised by to_string and becomes None: a second round trip loses the state                          (named: StateLostOnSecondRoundTrip)
+DictState(st) == IF st = "EMPTY" THEN "empty" ELSE "None"
+CtorPop(cls) == IF cls = "nsga" THEN 0 ELSE -1          \* IndividualNSGAII starts in population 0, the base class in -1
+N == Len(lists)
+New(v, cls) == /\ Step /\ Room
+          /\ lists' = lists \o << <<v>>, <<>>, <<>> >>
+          /\ objs' = Append(objs, Obj(counter, N + 1, N + 2, N + 3, "ctor", cls, CtorPop(cls), "EMPTY"))
           /\ counter' = counter + 1
-Copy(i) == /\ Step /\ Len(objs) < MaxObjs /\ i \in DOMAIN objs
-           /\ lists' = lists \o << lists[objs[i].vec], <<>> >>
-           /\ objs' = Append(objs, [id |-> counter, vec |-> Len(lists) + 1, costs |-> Len(lists) + 2, state |-> "EMPTY", pop |-> -1])
+Copy(i) == /\ Step /\ Room /\ i \in DOMAIN objs
+           /\ lists' = lists \o << lists[objs[i].vec], <<>>, <<>> >>
+           /\ objs' = Append(objs, Obj(counter, N + 1, N + 2, N + 3, "ctor", objs[i].cls, CtorPop(objs[i].cls), "EMPTY"))
            /\ counter' = counter + 1
-CopyNsga(i) == /\ Step /\ Len(objs) < MaxObjs /\ i \in DOMAIN objs
-               /\ lists' = Append(lists, lists[objs[i].vec])
-               /\ objs' = Append(objs, [id |-> counter, vec |-> Len(lists) + 1, costs |-> objs[i].costs, state |-> "EMPTY", pop |-> 0])
+CopyNsga(i) == /\ Step /\ Room /\ i \in DOMAIN objs /\ objs[i].cls = "nsga"
+               /\ lists' = lists \o << lists[objs[i].vec] >>
+               /\ objs' = Append(objs, Obj(counter, N + 1, objs[i].costs, objs[i].signed, "ctor", "nsga", 0, "EMPTY"))
                /\ counter' = counter + 1
 Sync(a, b) == /\ Step /\ a \in DOMAIN objs /\ b \in DOMAIN objs /\ a # b
-              /\ objs' = [objs EXCEPT ![a] = [@ EXCEPT !.vec = objs[b].vec, !.costs = objs[b].costs, !.state = objs[b].state, !.pop = objs[b].pop]]
+              /\ objs' = [objs EXCEPT ![a] = [@ EXCEPT !.vec = objs[b].vec, !.costs = objs[b].costs, !.signed = objs[b].signed,
+                                                            !.pop = objs[b].pop, !.state = objs[b].state]]
               /\ UNCHANGED <<lists, counter>>
-ToFrom(i) == /\ Step /\ Len(objs) < MaxObjs /\ i \in DOMAIN objs
+ToFrom(i) == /\ Step /\ Room /\ i \in DOMAIN objs
              /\ lists' = lists \o << lists[objs[i].vec], lists[objs[i].costs] >>
-             /\ objs' = Append(objs, [id |-> objs[i].id, vec |-> Len(lists) + 1, costs |-> Len(lists) + 2, state |-> "string", pop |-> objs[i].pop])
+             /\ objs' = Append(objs, Obj(objs[i].id, N + 1, N + 2, objs[i].signed, "dict", "base", objs[i].pop, DictState(objs[i].state)))
              /\ counter' = counter + 1
-SetVec(i, x) == /\ Step /\ i \in DOMAIN objs /\ lists[objs[i].vec] # <<>>
+ToFromJson(i) == /\ Step /\ Room /\ i \in DOMAIN objs
+                 /\ lists' = lists \o << lists[objs[i].vec], lists[objs[i].costs], lists[objs[i].signed] >>
+                 /\ objs' = Append(objs, Obj(objs[i].id, N + 1, N + 2, N + 3, "dict", "base", objs[i].pop, DictState(objs[i].state)))
+                 /\ counter' = counter + 1
+SetVec(i, x) == /\ Step /\ i \in DOMAIN objs
                 /\ lists' = [lists EXCEPT ![objs[i].vec] = [@ EXCEPT ![1] = x]]
                 /\ UNCHANGED <<objs, counter>>
-SetCost(i, x) == /\ Step /\ i \in DOMAIN objs
+SetCost(i, x) == /\ Step /\ i \in DOMAIN objs /\ Len(lists[objs[i].costs]) < 2
                  /\ lists' = [lists EXCEPT ![objs[i].costs] = Append(@, x)]
                  /\ UNCHANGED <<objs, counter>>
-Next == \/ \E v \in Vals : New(v)
-        \/ \E i \in 1..MaxObjs : Copy(i) \/ CopyNsga(i) \/ ToFrom(i)
+SetSigned(i, x) == /\ Step /\ i \in DOMAIN objs /\ Len(lists[objs[i].signed]) < 2
+                   /\ lists' = [lists EXCEPT ![objs[i].signed] = Append(@, x)]
+                   /\ UNCHANGED <<objs, counter>>
+Next == \/ \E v \in Vals, c \in Classes : New(v, c)
+        \/ \E i \in 1..MaxObjs : Copy(i) \/ CopyNsga(i) \/ ToFrom(i) \/ ToFromJson(i)
         \/ \E a, b \in 1..MaxObjs : Sync(a, b)
-        \/ \E i \in 1..MaxObjs, x \in Vals : SetVec(i, x) \/ SetCost(i, x)
+        \/ \E i \in 1..MaxObjs, x \in Vals : SetVec(i, x) \/ SetCost(i, x) \/ SetSigned(i, x)
 Spec == Init /\ [][Next]_vars
 \* ---- what the rest of the framework relies on ----
-CounterAhead == \A i \in DOMAIN objs : objs[i].id < counter                                 \* a fresh id is never one in use
-\* constructed objects (everything except from_dict results) have pairwise different ids
-ConstructedIdsUnique == \A i, j \in DOMAIN objs : (i # j /\ objs[i].id = objs[j].id) => (objs[i].state = "string" \/ objs[j].state = "string")
-\* vectors are never shared except through sync (copy() and from_dict() isolate the vector)
-VectorAliasOnlyBySync == [][ \A i, j \in DOMAIN objs' : (i # j /\ objs'[i].vec = objs'[j].vec) =>
-                               ((i \in DOMAIN objs /\ j \in DOMAIN objs /\ objs[i].vec = objs[j].vec)
-                                \/ \E a, b \in DOMAIN objs : objs' = [objs EXCEPT ![a] = objs'[a]] /\ objs'[a].vec = objs[b].vec) ]_vars
+TypeOK == \A i \in DOMAIN objs : objs[i].vec \in DOMAIN lists /\ objs[i].costs \in DOMAIN lists /\ objs[i].signed \in DOMAIN lists
+CounterAhead == \A i \in DOMAIN objs : objs[i].id < counter                                   \* a fresh id is never one in use
+CtorIdsUnique == \A i, j \in DOMAIN objs : (i # j /\ objs[i].origin = "ctor" /\ objs[j].origin = "ctor") => objs[i].id # objs[j].id
+\* a vector list is never the costs or signed list of anything (the three kinds of list never mix)
+KindsApart == \A i, j \in DOMAIN objs : objs[i].vec \notin {objs[j].costs, objs[j].signed} /\ objs[i].costs # objs[j].signed
+\* vectors become shared only through sync: every other operation gives the new object a vector of its own
+VecSharedOnlyBySync ==
+   [][ (\A a, b \in 1..MaxObjs : ~Sync(a, b)) =>
+         \A i, j \in DOMAIN objs' : (i # j /\ objs'[i].vec = objs'[j].vec) => (i \in DOMAIN objs /\ j \in DOMAIN objs /\ objs[i].vec = objs[j].vec) ]_vars
+\* a stored and re-read design (JSON path) is isolated from the live one
+JsonIsolates == [][ \A i \in 1..MaxObjs : ToFromJson(i) =>
+                       LET n == Len(objs') IN \A j \in DOMAIN objs : {objs'[n].vec, objs'[n].costs, objs'[n].signed} \cap {objs[j].vec, objs[j].costs, objs[j].signed} = {} ]_vars
 =============================================================================
